@@ -1313,8 +1313,13 @@ class RecordSerializer(TypeSerializer[T, np.void]):
         self._field_serializers = field_serializers
 
     def is_trivially_serializable(self) -> bool:
+        # The in-memory layout (an aligned structured dtype) equals the wire
+        # layout only if the fields are laid out without padding.
         return all(
             serializer.is_trivially_serializable()
+            for _, serializer in self._field_serializers
+        ) and self._dtype.itemsize == sum(
+            serializer.overall_dtype().itemsize
             for _, serializer in self._field_serializers
         )
 
